@@ -598,6 +598,7 @@ type runner struct {
 
 // step performs one action on the realised contexts and returns the real tokens.
 func (r *runner) step(ctxs map[string]*rctx, l label, nest int) ([]tok, string, error) {
+	r.lastTags = nil
 	if l.A == "StylesheetRequest" {
 		res, err := r.w.srv.Client().Get(r.w.srv.URL + "/styles/templ.css")
 		if err != nil {
@@ -615,7 +616,6 @@ func (r *runner) step(ctxs map[string]*rctx, l label, nest int) ([]tok, string, 
 	if c == nil {
 		return nil, "", fmt.Errorf("no context %q", l.C)
 	}
-	r.lastTags = nil
 	if l.A == "SetNonce" {
 		// ctx = templ.WithNonce(ctx, nonce) at this point of the history; nothing is written
 		r.lastGetNonce = c.setNonce(nonceValue(l.C, l.Nonce))
@@ -723,7 +723,7 @@ func (r *runner) check(ctxs map[string]*rctx, modes []string, hist []string, lab
 			r.drift++
 			vhlib.Drift(fmt.Sprintf("templ.GetNonce reports %q after templ.WithNonce(ctx, %q)", r.lastGetNonce, rep.Nonce), rep)
 		}
-	} else {
+	} else if l.A != "StylesheetRequest" {
 		if l.Nonce > 0 {
 			r.afterNonce++
 		}
